@@ -26,6 +26,20 @@ class Run:
 
     # ---- values -------------------------------------------------------
     def const(self, c):
+        # a promoted constant (`&"Basic"` compared with `==`): its own little body in the enclosing function's record
+        if isinstance(c, dict) and isinstance(c.get("promoted"), int) and getattr(self, "stack", None):
+            pj = (getattr(self.stack[-1], "j", None) or {}).get("promoted") or []
+            if 0 <= c["promoted"] < len(pj) and isinstance(pj[c["promoted"]], dict) and pj[c["promoted"]].get("blocks"):
+                class _Body:
+                    pass
+
+                pf = _Body()
+                pf.blocks = pj[c["promoted"]]["blocks"]
+                pf.j = {"promoted": []}
+                pf.kind = "Fn"
+                return self.run(pf, [], 1)
+        if isinstance(c, dict) and c.get("zst") and c.get("ty") == "()":
+            return ()
         return CE.ceval(self.P, const_term(c), {})
 
     def place(self, pl, st):
@@ -271,6 +285,16 @@ class Run:
             st[i + 1] = a
         b = 0
         blocks = f.blocks
+        if not hasattr(self, "stack"):
+            self.stack = []
+        self.stack.append(f)
+        try:
+            return self._loop(f, st, blocks, depth)
+        finally:
+            self.stack.pop()
+
+    def _loop(self, f, st, blocks, depth):
+        b = 0
         while True:
             self.budget -= 1
             if self.budget <= 0:
